@@ -175,6 +175,69 @@ def mixed_precision_case(d, part):
         bad("range/imageset", "Builder.imgset data_min/max = %r/%r, leaves span %r/%r" % (b.imgset.data_min, b.imgset.data_max, float(allv.min()), float(allv.max())))
 
 
+def integer_case(d, part, dt):
+    """Leaves holding integer pixels (detector counts: int16 / int32 / uint8), sparse, never zero; FITS writes their
+    range as integer-valued cards.  Every tile's range is the range of the leaf data beneath it all the same."""
+    from toasty.builder import Builder
+    from toasty.image import Image
+    from toasty.pyramid import PyramidIO, Pos
+    from wwt_data_formats.folder import Folder
+    from wwt_data_formats.place import Place
+
+    cfg = {"integer_leaves": dt, "start": 2}
+    part.case(nontrivial=True)
+
+    def bad(clause, detail):
+        part.violation("%s/fits-integer-%s" % (clause, dt), "%r: %s" % (cfg, detail), cfg)
+
+    root = os.path.join(d, "int_" + dt)
+    shutil.rmtree(root, ignore_errors=True)
+    pio = PyramidIO(root, default_format="fits")
+    leaves = {}
+    yy, xx = np.mgrid[0:256, 0:256]
+    for tid in (0, 1, 5, 6, 11, 12):
+        x, y = tid % 4, tid // 4
+        if dt == "u1":
+            a = ((yy + xx) % 40 + 60 + tid).astype(dt)
+            a[3, 3] = 250 - tid
+            a[200, 17] = 1 + tid
+        else:
+            a = ((yy * 3 + xx) % 100 + 1 + 10 * tid).astype(dt)
+            a[3, 3] = 3000 + 7 * tid  # outliers an average flattens
+            a[200, 17] = -31000 + 11 * tid
+        leaves[(2, x, y)] = a
+    try:
+        with quiet():
+            for pos, a in leaves.items():
+                pio.write_image(Pos(*pos), Image.from_array(a[::-1].copy()))
+            b = Builder(pio)
+            b.imgset.tile_levels = 2
+            b.cascade(parallel=1)
+            b.write_index_rel_wtml()
+    except Exception as e:
+        bad("raises:%s" % type(e).__name__, repr(e))
+        return
+    tree = c02.read_tree(root, "fits")
+    for pos, (arr, hdr) in sorted(tree.items()):
+        vals = [a for p, a in leaves.items() if (p[1] >> (2 - pos[0]), p[2] >> (2 - pos[0])) == (pos[1], pos[2])]
+        lo, hi = min(float(v.min()) for v in vals), max(float(v.max()) for v in vals)
+        if not hdr or "DATAMIN" not in hdr or "DATAMAX" not in hdr:
+            bad("range/header-missing", "tile %r has no DATAMIN/DATAMAX" % (pos,))
+            return
+        if not (np.isclose(hdr["DATAMIN"], lo, rtol=2e-7) and np.isclose(hdr["DATAMAX"], hi, rtol=2e-7)):
+            bad("range/differs-from-leaf-range/%s" % ("leaf" if pos[0] == 2 else ("root" if pos[0] == 0 else "inner")), "tile %r records %r/%r, the leaves beneath it span %r/%r" % (pos, hdr["DATAMIN"], hdr["DATAMAX"], lo, hi))
+            return
+    lo = min(float(a.min()) for a in leaves.values())
+    hi = max(float(a.max()) for a in leaves.values())
+    if not (np.isclose(b.imgset.data_min, lo, rtol=2e-7) and np.isclose(b.imgset.data_max, hi, rtol=2e-7)):
+        bad("range/imageset", "Builder.imgset data_min/max = %r/%r, leaves span %r/%r" % (b.imgset.data_min, b.imgset.data_max, lo, hi))
+    f = Folder.from_file(os.path.join(root, "index_rel.wtml"))
+    ch = f.children[0]
+    iset = ch.foreground_image_set if isinstance(ch, Place) else ch
+    if not (np.isclose(iset.data_min, lo, rtol=2e-7) and np.isclose(iset.data_max, hi, rtol=2e-7)):
+        bad("range/wtml", "index_rel.wtml DataMin/DataMax = %r/%r, leaves span %r/%r" % (iset.data_min, iset.data_max, lo, hi))
+
+
 def updated_leaves_case(d, part, parallel_cascade=1):
     """Leaves written through update_image in two passes (as multi-TAN tiling and non-clobbering
     TOAST sampling do), the second pass widening the data range; then cascade."""
@@ -376,6 +439,8 @@ def _builder_job(job):
             piecewise_case(d, part)
             toast_fits_case(d, part)
             mixed_precision_case(d, part)
+            for _dt in ("i2", "i4", "u1"):
+                integer_case(d, part, _dt)
         part.sample({"builder_cascade": True, "start": job[0][0], "population": list(job[0][1]), "all_nan_leaf": job[0][2]})
     return part
 
@@ -421,6 +486,13 @@ def replay(payload):
         part = Part()
         with scratch("c14r") as d:
             toast_fits_case(d, part)
+        for sig, (detail, _) in part.violations.items():
+            print("REPLAY-FAIL", sig, detail[:400])
+        return 1 if part.violations else 0
+    if r.get("integer_leaves"):
+        part = Part()
+        with scratch("c14r") as d:
+            integer_case(d, part, r["integer_leaves"])
         for sig, (detail, _) in part.violations.items():
             print("REPLAY-FAIL", sig, detail[:400])
         return 1 if part.violations else 0
